@@ -16,6 +16,7 @@ Re-extracts from the CURRENT /repo/blots-core/src/units.rs
 and writes lean/Blots/Gen/Units.lean.  Any construct it does not understand raises
 `Fail` (-> TRANSLATOR-FAILED): it never guesses and never keeps a stale table.
 """
+import os
 import re
 import struct
 from fractions import Fraction
@@ -395,6 +396,22 @@ def gen(read, write_if_changed, lean_str, Fail, fn_body):
         pos = close + 1
     if len(rows) != expected or expected == 0:
         raise Fail("units.rs: parsed %d of %d Unit::new_* calls" % (len(rows), expected))
+    # The order of the rows in the source is not observable (resolution reports every identifier that
+    # two units share as ambiguous, whatever their order): emit them in a pinned order, so that moving
+    # rows around does not disturb the index-based certificates and examples of the proofs.  New units
+    # come after the pinned ones, in source order.
+    try:
+        import json
+        pinned = json.load(open(os.path.join(os.path.dirname(os.path.abspath(__file__)), "pinned_order.json")))["unit_first_ids"]
+    except Exception:
+        pinned = []
+    pos_of = {k: i for i, k in enumerate(pinned)}
+    # a unit is recognised by any of its identifiers that is pinned (its first identifier may be reordered too)
+    def unit_key(ir):
+        i, r = ir
+        ks = [pos_of[x] for x in r["ids"] if x in pos_of]
+        return (0, min(ks), i) if ks else (1, i, i)
+    rows = [r for _, r in sorted(enumerate(rows), key=unit_key)]
     # nothing but the calls, commas and white space may be left inside vec![ ]
     inner = re.fullmatch(r"\s*vec!\s*\[(.*)\]\s*", body, re.S).group(1)
     rest = []
